@@ -20,7 +20,7 @@ from vlib.memogen import AUTH_ZERO, ZERO_CODES
 
 PID = "C20"
 RULE = ("cases: 1-3 non-empty unicode memos (1-2000 code points, incl. astral planes) x zero-gram code (plain / auth / sure / "
-        "sure-auth) x header encoding (base64 / base2) x gram size = legal minimum + 0..400 (or the maximum; at least minimum + 40 when the memos total more than 600 bytes) x signer x delivery "
+        "sure-auth) x header encoding (base64 / base2) x gram size = legal minimum + 0..400 (or the maximum; at least minimum + 40 when the memos total more than 600 bytes) x signer x sender either constructed for that encoding or made for the other one and switched by assigning .curt (with or without assigning .size again, fresh or already used) x delivery "
         "order = generated index sequence over the union of all grams (duplicates allowed) completed by the undelivered grams x "
         "optionally one withheld gram x receive servicing every k deliveries; non-trivial = some memo has >= 3 grams, the "
         "delivery is out of order (a later gram of a memo before an earlier one) and contains a duplicate; distinct = canonical hash")
@@ -42,7 +42,19 @@ def run_case(case):
     size = 65535 if case["extra"] is None else base + case["extra"]
     if sum(len(t.encode()) for t in case["memos"]) > 600:
         size = max(size, base + 40)        # keeps the number of grams (and signatures) per case in the hundreds
-    tx = memogen.sender(code, curt, size, signer=case["signer"])
+    sw = case.get("switched")
+    if sw:
+        # a reused sender: made for the other header encoding, then switched over by assigning .curt (and, optionally,
+        # .size again); the gram size it then uses is whatever hio derives, the delivery oracle does not depend on it
+        tx = memogen.sender(code, not curt, 0 if sw["size0"] == "min" else size, signer=case["signer"])
+        if sw.get("used"):
+            list(tx.rend("warm up", tx.vid if auth else None))
+        tx.curt = curt
+        if sw.get("resize") or (sw["size0"] == "min" and sum(len(t.encode()) for t in case["memos"]) > 300):
+            tx.size = size          # (also bounds the number of minimum-size grams per case)
+        r.labels.append("sender-switched-encoding")
+    else:
+        tx = memogen.sender(code, curt, size, signer=case["signer"])
     vid = tx.vid if auth else None
     memos = case["memos"]
     per = []          # per memo: list of gram bytes
@@ -172,6 +184,8 @@ def _strategy(tame=False):
         "curt": st.booleans(),
         "tame": st.just(tame),
         "extra": st.one_of(st.integers(0, 12), st.integers(0, 12), st.integers(0, 60), st.integers(0, 400), st.none()),
+        "switched": st.sampled_from([None, None, None, {"size0": "min"}, {"size0": "min", "used": True},
+                                     {"size0": "same", "resize": True}, {"size0": "same"}]),
         "signer": st.sampled_from([0, 1, 2, 4]),       # 4: transferable signer whose current key differs from the one in its vid
         "authic": st.booleans(),
         "memos": st.lists(text, min_size=1, max_size=3),
